@@ -29,6 +29,10 @@ fn has_string_with(t: &Ast, q: char) -> bool {
     }
 }
 
+fn dual_seqs() -> TokenSeqs {
+    TokenSeqs { alphabet: super::c02::DUAL_TOKENS.to_vec(), max_len: 6 }
+}
+
 pub fn roundtrip(text: &str, ops: &OpSet, stage: &str, out: &mut WorkerOut) {
     let case = || format!("{}|{}", stage, show(text));
     let p = match engine::parse_full(text) {
@@ -144,10 +148,10 @@ impl Prop for C12 {
                 },
                 Stage {
                     name: "dual-role".into(),
-                    len: 1,
-                    chunk: 1,
+                    len: dual_seqs().len(),
+                    chunk: (dual_seqs().len() / 32).max(1000),
                     timeout: Duration::from_secs(900),
-                    what: "fresh process with `%` also postfix, `*` also prefix, `!` and `++` also infix: every sequence of <= 5 (6) tokens over {1, x, %, *, !, ++, (, ), +, -, [, ], NOT, not}, spaced and glued, that the engine accepts must round-trip (engine against engine)".into(),
+                    what: "fresh processes with `%` also postfix, `*` also prefix, `!` and `++` also infix: every sequence of <= 6 tokens over {1, x, %, *, !, ++, (, ), +, -, [, ], NOT, not}, spaced and glued, that the engine accepts must round-trip (engine against engine)".into(),
                 },
             ],
             rule: "stage 'reregister': every history of <= 3 registrations of one infix operator with (precedence, associativity) drawn from {105,125}x{LEFT,RIGHT}, each history in a fresh process, the 18 two-operator trees over {xop,*,+} round-tripped after every registration (a renderer that remembers binding powers across a re-registration fails here). \
@@ -216,9 +220,8 @@ impl Prop for C12 {
             return;
         }
         if stage == 6 {
-            out.at(0);
             let dops = super::c02::install_dual_role();
-            let seqs = TokenSeqs { alphabet: super::c02::DUAL_TOKENS.to_vec(), max_len: tier.pick(5, 6) };
+            let seqs = dual_seqs();
             // (glued, `1not!1` reads `not` as a NAME: trees with a name that is an operator word
             // are outside the property)
             fn opword_name(t: &Ast, ops: &OpSet) -> bool {
@@ -234,7 +237,8 @@ impl Prop for C12 {
                     _ => false,
                 }
             }
-            for i in 0..seqs.len() {
+            for i in a..b {
+                out.at(i);
                 for text in [seqs.spaced(i), seqs.glued(i)] {
                     if let Res::Ok(t) = engine::parse(&text) {
                         if opword_name(&t, &dops) {
@@ -260,8 +264,8 @@ impl Prop for C12 {
                     }
                 }
             }
-            out.count("states", seqs.len());
-            out.count("transitions", 2 * seqs.len());
+            out.count("states", b - a);
+            out.count("transitions", 2 * (b - a));
             return;
         }
         if stage == 2 {
@@ -298,7 +302,7 @@ impl Prop for C12 {
             return super::c13::render_workloads()[i as usize].name.to_string();
         }
         if stage == 6 {
-            return "dual-role operator table".to_string();
+            return dual_seqs().spaced(i);
         }
         if stage == 5 {
             return format!("{:?}", MIXED[i as usize]);
